@@ -11,16 +11,19 @@ CFG = {
                   "property names: the layout/connectivity operations keep the rows (all attribute values of a vertex) of "
                   "every surviving corner and change the index list only by the selection their contract names "
                   "(unweld, remove-unreferenced, remove-null-faces, flip, to-point-cloud, filters, crop, append, repeat, "
-                  "split, weld); the single-attribute transforms change exactly one attribute by the stated pointwise map. "
+                  "split, weld, slice-by-plane); the single-attribute transforms (incl. scale-along-normal) change exactly one attribute by the stated pointwise map; "
+                  "a result is a value: no later operation changes it (results_are_values). "
                   "Proved for every well-formed mesh, every predicate / rounding key / area test / transform parameter; "
-                  "contract_sound: the boolean contract evaluated by the check holds of the model's result for all 20 "
+                  "contract_sound: the boolean contract evaluated by the check holds of the model's result for all 22 "
                   "operations and all well-formed inputs, so a contract failure can only come from the implementation. "
                   "The model is tied to the Go code on every run: the implementation is executed on random well-formed "
                   "integer-valued meshes (histories of depth <= 4), and Coq evaluates (vm_compute) both model = "
                   "implementation and the boolean contract on the implementation's own output",
     "level_note": "Trusted: Coq kernel + vm_compute; hand-written model tied by differential correspondence only (generator "
                   "quality bounds it). LaplacianSmooth values are compared IN COQ (exact dyadic rationals, relative 1e-9) with the "
-                  "rational model Mesh/Smooth.v for which laplacian_spec / laplacian_laws are proved. Values of normalise / normals / "
+                  "rational model Mesh/Smooth.v for which laplacian_spec / laplacian_laws are proved; scale-along-normal is exact in Coq. Retained results are re-read "
+                  "after later operations on the real Go values (CKeep: equality judged in Coq); meshes of thousands of vertices (block limits) are judged "
+                  "harness-side by the disjoint-union law against the implementation's own results on the small tiles. Values of normalise / normals / "
                   "Laplacian-along-axis are float arithmetic: compared by the "
                   "harness with an independent float64 computation (1e-9); Coq checks their frame law. weld_spec is stated "
                   "for an arbitrary key function (covers every decimal place); the float rounding inside Vector3ToInt is "
@@ -29,16 +32,17 @@ CFG = {
                  "contract check on the implementation's output",
     "design_ref": "DESIGN.md §3.2, §4 C03, §5 #2 #24 #25 #26",
     "n_quick": 1300, "n_thorough": 12000,
-    "rule": "2 of 24 cases are needle/sliver RemoveNullFaces3D cases (aspect 1e3-1e9, scales 2^-40..2^20, thresholds decided exactly), 3 of 24 start from a surface with a definite neighbourhood structure (open fan, strip, grid, non-manifold edge, repeated-index, bow-tie, tetrahedron, line strip/loop/list) followed by Laplacian / Laplacian-along-axis / normals; float-valued operations and centre run at power-of-two scales 2^-40..2^20 two times in three (reference from the integer mesh, relative 1e-9); of the remaining histories 4 of 10 start from random well-formed meshes, 3 from structured meshes (unreferenced vertices none/front/middle/back/several x degenerate primitives none/some/all, well-separated integer coordinates of both signs), 1 from a generator triangle list with integer positions reduced by SetIndices to a subset of its primitives, 2 from vertices clustered in the same and adjacent rounding cells (widths 1, 10, 100; centres, just inside and on the cell boundaries) welded at the matching decimal place; structured sources mostly get the index-remapping operations; random well-formed meshes (6 topologies; 0-10 vertices; identity, permuted, repeated, sparse and empty index "
+    "rule": "20 local operations once per run at a vertex count around a power of two (1023..12289; thorough ..65537), tail of the vertex array referenced or not (disjoint-union law); one history in 20 keeps the real mesh values of a branching history (3-7 operations, base with spare slice capacity) and re-reads every retained value after every later operation; 2 of 24 cases are needle/sliver RemoveNullFaces3D cases (aspect 1e3-1e9, scales 2^-40..2^20, thresholds decided exactly), 3 of 24 start from a surface with a definite neighbourhood structure (open fan, strip, grid, non-manifold edge, repeated-index, bow-tie, tetrahedron, line strip/loop/list) followed by Laplacian / Laplacian-along-axis / normals; float-valued operations and centre run at power-of-two scales 2^-40..2^20 two times in three (reference from the integer mesh, relative 1e-9); of the remaining histories 4 of 10 start from random well-formed meshes, 3 from structured meshes (unreferenced vertices none/front/middle/back/several x degenerate primitives none/some/all, well-separated integer coordinates of both signs), 1 from a generator triangle list with integer positions reduced by SetIndices to a subset of its primitives, 2 from vertices clustered in the same and adjacent rounding cells (widths 1, 10, 100; centres, just inside and on the cell boundaries) welded at the matching decimal place; structured sources mostly get the index-remapping operations; random well-formed meshes (6 topologies; 0-10 vertices; identity, permuted, repeated, sparse and empty index "
             "lists; 0-4 attributes of arity 1-4 incl. equal names in two arities and keys with empty arrays; duplicated "
-            "vertex values; material ranges incl. empty and repeated ones), one of 27 operations per step (function, "
+            "vertex values; material ranges incl. empty and repeated ones), one of 29 operations per step (function, "
             "Transformer-struct and Mesh-method variants; ~1/10 with a wrong topology or missing attribute), histories of "
             "depth 1-4 feeding the implementation's own output back in, plus composition laws (flip twice, unweld twice, "
             "remove-unreferenced twice, weld after unweld); distinct by input; non-trivial = the operation succeeded on a "
             "mesh with at least one index and one attribute",
     "trusted": ["values produced by NormalizeAttribute3D/2D, SmoothNormals, SmoothNormalsImplicitWeld, FlatNormals, "
-                "LaplacianSmooth, ScaleAttributeAlongNormal are compared harness-side (float64, 1e-9) with an independent "
+                "LaplacianSmoothAlongAxis are compared harness-side (float64, 1e-9) with an independent "
                 "computation of the stated map; only their frame law is evaluated in Coq",
+                "tile stream: the comparison of an operation on 10^3..10^4 vertices with the union of its results on the tiles is done by the harness",
                 "material identity (*modeling.Material) is projected through Material.Name"],
     "modelled": ["Go map iteration order (attribute maps are modelled as one strictly sorted association list; "
                  "AttributeLength = length of its first entry, which on well-formed meshes equals every other)",
